@@ -25,7 +25,7 @@ MARKERS = ['x', 'y', 'remove', 'data', 'kernels']
 KEYWORDS = ['loki', 'loki', 'loki', 'acc', 'omp', 'LOKI', 'Loki']
 PLAIN_PRAGMAS = [
     ('loki', 'some-pragma vars(x, y)'), ('loki', 'loop-fusion group(g1)'), ('loki', 'inline'),
-    ('loki', 'dimension(n)'), ('loki', 'routine seq'), ('acc', 'loop vector'), ('omp', 'parallel do private(i)'),
+    ('loki', 'routine seq'), ('acc', 'loop vector'), ('omp', 'parallel do private(i)'),
     ('acc', 'data present(a, b) &\n!$acc&   copyin(tmp)'), ('loki', 'driver-loop'), ('LOKI', 'Separator'),
     ('loki', 'k_caching'), ('omp', 'simd'), ('loki', 'vector-reduction( + : x )'), ('loki', 'dependency-boundary'),
 ]
@@ -40,8 +40,13 @@ LOOPVARS = ['i', 'j', 'l', 'll']
 
 
 class _G:
-    def __init__(self, draw):
+    def __init__(self, draw, flags=None):
         self.draw = draw
+        self.flags = flags or {'typedef': True, 'carr': True, 'associate': True, 'bare_end': True}
+        f = self.flags
+        ok = lambda t: (f['typedef'] or 'd%' not in t) and (f['carr'] or 'c(' not in t)   # noqa
+        self.assigns = [t for t in ASSIGNS if ok(t)]
+        self.calls = [t for t in CALLS if ok(t)]
         self.nreg = 0
         self.nname = 0
 
@@ -68,6 +73,8 @@ class _G:
         m = self.draw(st.sampled_from(MARKERS))
         if self.draw(st.booleans()):
             return ['pragma', kw, m]
+        if self.flags.get('bare_end') and self.draw(st.integers(0, 5)) == 0:
+            return ['pragma', kw, 'end']
         return ['pragma', kw, self.draw(st.sampled_from(['end ', 'end ', 'END '])) + m]
 
     def pragma_run(self, p_any=0.45):
@@ -109,7 +116,7 @@ class _G:
     # ---- executable statements ----------------------------------------------
     def body(self, depth, lo=0, hi=3, pragmas=True):
         d = self.draw
-        n = d(st.integers(lo, hi if depth < 2 else min(hi, 2)))
+        n = d(st.integers(lo, hi if depth < 1 else min(hi, 2)))
         items = []
         for _ in range(n):
             if pragmas:
@@ -122,20 +129,22 @@ class _G:
 
     def stmt(self, depth):
         d = self.draw
-        kinds = ['assign', 'assign', 'call', 'call', 'comment', 'ifline', 'print']
+        kinds = ['assign', 'assign', 'call', 'call', 'call', 'comment', 'ifline', 'print']
         if depth < 3:
-            kinds += ['loop', 'loop', 'loop', 'while', 'if', 'if', 'select', 'where', 'associate', 'forall']
+            kinds += ['loop', 'loop', 'loop', 'loop', 'loop', 'while', 'while', 'if', 'if', 'select', 'where', 'forall']
+            if self.flags['associate']:
+                kinds.append('associate')
         k = d(st.sampled_from(kinds))
         if k == 'assign':
-            return ['assign', d(st.sampled_from(ASSIGNS))]
+            return ['assign', d(st.sampled_from(self.assigns))]
         if k == 'call':
-            return ['call', d(st.sampled_from(CALLS))]
+            return ['call', d(st.sampled_from(self.calls))]
         if k == 'comment':
             return ['comment', 'plain comment mentioning !$loki end x']
         if k == 'print':
             return ['print', "print *, 'x', x"]
         if k == 'ifline':
-            return ['assign', f'if ({d(st.sampled_from(CONDS))}) {d(st.sampled_from(ASSIGNS))}']
+            return ['assign', f'if ({d(st.sampled_from(CONDS))}) {d(st.sampled_from(self.assigns))}']
         if k == 'loop':
             name = None
             if d(st.integers(0, 9)) == 0:
@@ -170,7 +179,8 @@ class _G:
             dflt = wbody() if d(st.booleans()) else None
             return ['where', branches, dflt]
         if k == 'associate':
-            return ['associate', d(st.sampled_from(['zz => d%v', 'zz => a, zx => x'])), self.body(depth + 1, 1, 3)]
+            sel = ['zz => d%v', 'zz => a, zx => x'] if self.flags['typedef'] else ['zz => a, zx => x', 'zz => tmp']
+            return ['associate', d(st.sampled_from(sel)), self.body(depth + 1, 1, 3)]
         if k == 'forall':
             out = []
             if d(st.integers(0, 2)) == 0:
@@ -270,33 +280,36 @@ def _spec(g, unit):
         items += gap()
         items.append(['decl', 'real(kind=8), intent(inout) :: a(n), b(n, m)'])
         items += gap()
-        if d(st.booleans()):
-            items.append(['pragma', 'loki', 'dimension(n)'])
-        items.append(['decl', 'real(kind=8), intent(inout) :: c(:)'])
-        items += gap()
+        if g.flags['carr']:
+            if d(st.booleans()):
+                items.append(['pragma', 'loki', 'dimension(n)'])
+            items.append(['decl', 'real(kind=8), intent(inout) :: c(:)'])
+            items += gap()
         items.append(['decl', 'logical, intent(in) :: flag'])
         items += gap()
     else:
         items.append(['decl', 'integer, parameter :: n = 8, m = 4'])
         items += gap()
-        if d(st.booleans()):
-            items.append(['pragma', 'loki', 'dimension(n)'])
-        items.append(['decl', 'real(kind=8), allocatable :: c(:)'])
-        items += gap()
+        if g.flags['carr']:
+            if d(st.booleans()):
+                items.append(['pragma', 'loki', 'dimension(n)'])
+            items.append(['decl', 'real(kind=8), allocatable :: c(:)'])
+            items += gap()
         items.append(['decl', 'real(kind=8) :: a(n), b(n, m)'])
         items += gap()
         items.append(['decl', 'logical :: flag = .false.'])
         items += gap()
     # derived type with pragmas inside its body
-    items.append(['decl', 'type t_loc'])
-    items += [['decl', '  ' + x[1]] if x[0] == 'decl' else x for x in
-              (gap(0.3) + [['decl', 'real(kind=8) :: v(4)']] + gap(0.3) + [['decl', 'integer :: cnt']] + gap(0.3))]
-    items.append(['decl', 'end type t_loc'])
-    items += gap()
-    items.append(['decl', 'type(t_loc) :: d'])
-    items += gap()
+    if g.flags['typedef']:
+        items.append(['decl', 'type t_loc'])
+        items += [['decl', '  ' + x[1]] if x[0] == 'decl' else x for x in
+                  (gap(0.3) + [['decl', 'real(kind=8) :: v(4)']] + gap(0.3) + [['decl', 'integer :: cnt']] + gap(0.3))]
+        items.append(['decl', 'end type t_loc'])
+        items += gap()
+        items.append(['decl', 'type(t_loc) :: d'])
+        items += gap()
     # interface block with pragmas around and inside
-    if d(st.integers(0, 2)) > 0:
+    if d(st.integers(0, 2)) == 0:
         items.append(['decl', 'interface'])
         items.append(['decl', '  subroutine other(p, q, r)'])
         items += gap(0.4)
@@ -321,8 +334,12 @@ def _spec(g, unit):
 
 
 @st.composite
-def unit_source(draw, units=('subroutine', 'subroutine', 'subroutine', 'function', 'module')):
-    g = _G(draw)
+def unit_source(draw, units=('subroutine', 'subroutine', 'subroutine', 'function', 'module'),
+                allow_typedef=True, allow_associate=True, allow_bare_end=True):
+    """``allow_*=False`` switches a construct off (exclusion by construction of listed findings)"""
+    flags = {'typedef': allow_typedef and draw(st.integers(0, 2)) == 0, 'carr': draw(st.booleans()),
+             'associate': allow_associate, 'bare_end': allow_bare_end}
+    g = _G(draw, flags)
     unit = draw(st.sampled_from(units))
     L = {'upper': draw(st.integers(0, 3)) == 0, 'indent': draw(st.sampled_from([2, 2, 4])),
          'indent_pragmas': draw(st.integers(0, 3)) > 0}
@@ -338,15 +355,15 @@ def unit_source(draw, units=('subroutine', 'subroutine', 'subroutine', 'function
         out.append(f'end module {name}')
     else:
         if unit == 'subroutine':
-            out.append(f'subroutine {name}(n, m, a, b, c, flag)')
+            out.append(f'subroutine {name}(n, m, a, b, {"c, " if flags["carr"] else ""}flag)')
         else:
-            out.append(f'function {name}(n, m, a, b, c, flag) result(res)')
+            out.append(f'function {name}(n, m, a, b, {"c, " if flags["carr"] else ""}flag) result(res)')
         spec = _spec(g, unit)
         if unit == 'function':
             spec.append(['decl', 'real(kind=8) :: res'])
         render_items(spec, 2, L, out)
         body = [['assign', 'k = 0'], ['assign', 'x = 0.0d0'], ['assign', 'y = 1.0d0']] if draw(st.booleans()) else []
-        body += g.body(0, 1, 5)
+        body += g.body(0, 1, 4)
         if unit == 'function':
             body.append(['assign', 'res = x'])
             body += g.pragma_run(0.3)
@@ -355,4 +372,4 @@ def unit_source(draw, units=('subroutine', 'subroutine', 'subroutine', 'function
             out.append('contains')
             out += ['  ' + ln for ln in member]
         out.append(f'end {unit} {name}')
-    return {'unit': unit, 'name': name, 'src': '\n'.join(out) + '\n'}
+    return {'unit': unit, 'name': name, 'src': '\n'.join(out) + '\n', 'typedef': flags['typedef']}
